@@ -1,6 +1,10 @@
 #!/bin/bash
 # C11: in-process explorer, then the CLI layer
 cd /verif
+case " $* " in *" --replay "*)
+  f=$(echo "$*" | sed 's/.*--replay *//; s/ .*//')
+  case "$(basename "$f")" in cli_*) exec python3 /verif/cli/special.py C11 "$@";; *) exec /verif/target/release/vcheck C11 "$@";; esac;;
+esac
 /verif/target/release/vcheck C11 "$@"; a=$?
 python3 /verif/cli/special.py C11 "$@"; b=$?
 if [ $a -eq 2 ] || [ $b -eq 2 ]; then exit 2; fi
